@@ -18,6 +18,7 @@ import random
 import re
 import shutil
 import tempfile
+import time
 
 from vf.core.obs import Obs, cpu_guard, CpuBudget, exc_sig, h64
 from vf.core import anchors
@@ -248,6 +249,19 @@ def _ddmin(seq, test, budget):
     return seq
 
 
+def _neutral(chars, neutral, test, limit=24):
+    """Replace every character the failure does not depend on by a neutral one (stable feature tags)."""
+    chars = list(chars)
+    if len(chars) > limit:
+        return chars
+    for i, c in enumerate(chars):
+        if c != neutral:
+            cand = chars[:i] + [neutral] + chars[i + 1:]
+            if test(cand):
+                chars = cand
+    return chars
+
+
 PRIORITY = ["raises", "no-return", "store-has", "stored-under-other-title", "merged-into-other-title", "lost",
             "excluded-page-stored", "unexpected-page", "altered", "default-template", "second-connection"]
 
@@ -307,20 +321,6 @@ class Minimiser:
                 o2[k] = v
                 if test(pages, o2):
                     opts = o2
-        if lang != "en" and all(p["ns"] in G.nsdata("en")["names"] for p in pages):
-            pp = []
-            for p in pages:
-                pre, rest = split_title(lang, p)
-                q = dict(p)
-                q["title"] = (G.prefix("en", p["ns"]) if pre else "") + rest
-                if q.get("redirect") is not None:
-                    q["redirect"] = "R"
-                pp.append(q)
-            o2 = dict(opts)
-            o2["lang"] = "en"
-            o2["selected"] = [i for i in opts["selected"] if i in G.nsdata("en")["names"]]
-            if test(pp, o2):
-                pages, opts, lang = pp, o2, "en"
         # C. fields of every remaining page (target last so that its tags are final)
         order = [p for p in pages if p["uid"] != uid] + [p for p in pages if p["uid"] == uid]
         for p in order:
@@ -354,6 +354,8 @@ class Minimiser:
                     pre2, rest2 = split_title(lang, p)
                     chars = _ddmin(list(rest2), lambda cs: test(repl(title=pre2 + "".join(cs))[0]), B)
                     attempt(title=pre2 + "".join(chars))
+                    chars = _neutral(chars, "A", lambda cs: test(repl(title=pre2 + "".join(cs))[0]))
+                    attempt(title=pre2 + "".join(chars))
             if p.get("redirect") is None and p["text"] != "x":
                 if not attempt(text="x"):
                     if p["ns"] == M.TEMPLATE_NS:
@@ -377,6 +379,23 @@ class Minimiser:
                                 break
                         chars = _ddmin(list(t), lambda cs: test(repl(text="".join(cs))[0]), B)
                         attempt(text="".join(chars))
+                        chars = _neutral(chars, "x", lambda cs: test(repl(text="".join(cs))[0]))
+                        attempt(text="".join(chars))
+        # C'. language of the dump (after pages were moved to the main namespace where possible)
+        if lang != "en" and all(p["ns"] in G.nsdata("en")["names"] for p in pages):
+            pp = []
+            for p in pages:
+                pre, rest = split_title(lang, p)
+                q = dict(p)
+                q["title"] = (G.prefix("en", p["ns"]) if pre else "") + rest
+                if q.get("redirect") is not None:
+                    q["redirect"] = "R"
+                pp.append(q)
+            o2 = dict(opts)
+            o2["lang"] = "en"
+            o2["selected"] = [i for i in opts["selected"] if i in G.nsdata("en")["names"]]
+            if test(pp, o2):
+                pages, opts, lang = pp, o2, "en"
         # D. route
         other = ROUTES[1 - ROUTES.index(route)]
         route_tag = None if test(pages, opts, other) else route
@@ -435,12 +454,14 @@ class Minimiser:
 # ------------------------------------------------------------------ one dump
 
 class Monitor:
-    def __init__(self, obs):
+    def __init__(self, obs, tier="quick"):
         import wikitextprocessor.dumpparser as DP
         from wikitextprocessor import Wtp
         self.obs = obs
         self.runner = Runner()
         self.memo = {}
+        self.min_spent = 0.0
+        self.min_budget = {"quick": 150.0, "thorough": 1500.0}.get(tier, 150.0)
         anchors.watch({"dumpparser.parse_dump_xml": DP.parse_dump_xml, "dumpparser.process_dump": DP.process_dump,
                        "dumpparser.add_default_templates": DP.add_default_templates,
                        "dumpparser.decompress_dump_file": DP.decompress_dump_file,
@@ -468,7 +489,16 @@ class Monitor:
         for d in diffs:
             ck = self.coarse(d, pages, opts, info, route)
             res = self.memo.get(ck)
+            if res is None and self.min_spent > self.min_budget:
+                # only on trees with very many different disagreements: report the rest un-minimised
+                self.obs.count("disagreements-reported-unminimised")
+                small = [p if len(p["text"]) < 5000 else dict(p, text=p["text"][:5000]) for p in pages]
+                self.obs.violation(d["rule"] + "/unminimised(minimisation time budget of the shard used up)", d["detail"],
+                                   {"pages": small, "opts": opts, "route": route, "uid": d["uids"][0] if d["uids"] else None,
+                                    "rule": d["rule"]})
+                continue
             if res is None:
+                t0 = time.time()
                 self.obs.count("minimisations")
                 mini = Minimiser(self.runner)
                 uid = d["uids"][0] if d["uids"] else None
@@ -478,6 +508,7 @@ class Monitor:
                            "case": {"pages": pages, "opts": opts, "route": route, "uid": uid, "rule": d["rule"]}}
                 self.obs.maxi("minimisation_runs_max", 260 - mini.budget[0])
                 self.memo[ck] = res
+                self.min_spent += time.time() - t0
             self.obs.violation(res["sig"], res["msg"] + " || first seen as: " + d["detail"][:200], res["case"])
 
     def check_dump(self, pages, opts, info, gen, second):
@@ -585,7 +616,7 @@ def selfcheck(obs, pages, info):
 def run_shard(spec):
     obs = Obs()
     rng = random.Random(spec["seed"])
-    mon = Monitor(obs)
+    mon = Monitor(obs, spec.get("tier", "quick"))
     try:
         i = spec["idx"]
         # systematic part: this shard's language, all three selection variants
